@@ -1133,7 +1133,11 @@ func vc01SocketCase(t *rapid.T, st *vstat.Stats, n *vc01Net, in ref.Input) {
 	b64 := base64.RawURLEncoding.EncodeToString
 	decoy := rapid.Bool().Draw(t, "dohDecoy")
 	chunked := rapid.Bool().Draw(t, "chunkedBody")
-	get, post := dnsserver.PathDoH+"?dns="+b64(wire), dnsserver.PathDoH
+	pathPick := ref.RapidChooser(t)
+	getPath, gc := ref.DrawDoHPath(pathPick, "doh-get-path", dnsserver.PathDoH)
+	postPath, pc := ref.DrawDoHPath(pathPick, "doh-post-path", dnsserver.PathDoH)
+	classes = append(classes, gc, pc)
+	get, post := getPath+"?dns="+b64(wire), postPath
 	if decoy {
 		classes = append(classes, "doh-decoy-params")
 		get += "&name=k0.decoy.test&type=AAAA&ct=" + url.QueryEscape(dnsserver.MimeTypeJSON) + "&do=1"
@@ -1487,14 +1491,14 @@ func vc01SocketCase(t *rapid.T, st *vstat.Stats, n *vc01Net, in ref.Input) {
 				defer close(done)
 
 				r2, err2 = vc01Attempt(func() (ref.Result, error) {
-					r, _, err := n.http(n.h2, "https", http.MethodPost, dnsserver.PathDoH, w2)
+					r, _, err := n.http(n.h2, "https", http.MethodPost, postPath, w2)
 
 					return r, err
 				})
 			}()
 
 			r, err = vc01Attempt(func() (ref.Result, error) {
-				r, _, err := n.http(n.h2, "https", http.MethodGet, dnsserver.PathDoH+"?dns="+b64(wire), nil)
+				r, _, err := n.http(n.h2, "https", http.MethodGet, getPath+"?dns="+b64(wire), nil)
 
 				return r, err
 			})
@@ -1543,6 +1547,8 @@ func vc01SocketCase(t *rapid.T, st *vstat.Stats, n *vc01Net, in ref.Input) {
 	if c.Verdict == ref.VAccept && vc01PlainName(c.Req.Question[0].Name) {
 		pick := ref.RapidChooser(t)
 		j := ref.DrawJSONQuery(pick, c.Req.Question[0])
+		jsonPath, jpc := ref.DrawDoHPath(pick, "doh-json-path", dnsserver.PathJSON)
+		classes = append(classes, jpc)
 		method := rapid.SampledFrom([]string{http.MethodGet, http.MethodGet, http.MethodPost}).Draw(t, "jsonMethod")
 		cl, scheme := n.h2, "https"
 		if rapid.IntRange(0, 3).Draw(t, "jsonPlain") == 0 {
@@ -1571,7 +1577,7 @@ func vc01SocketCase(t *rapid.T, st *vstat.Stats, n *vc01Net, in ref.Input) {
 				v.Set("ct", otherCT)
 			}
 
-			return dnsserver.PathJSON + "?" + v.Encode()
+			return jsonPath + "?" + v.Encode()
 		}
 
 		call := func(wireCT bool) (r ref.Result, ct string) {
@@ -1647,7 +1653,7 @@ func vc01SocketCase(t *rapid.T, st *vstat.Stats, n *vc01Net, in ref.Input) {
 			}
 
 			r, err = vc01Attempt(func() (ref.Result, error) {
-				r, _, err := n.http(cl, scheme, http.MethodPost, dnsserver.PathDoH, jb)
+				r, _, err := n.http(cl, scheme, http.MethodPost, postPath, jb)
 
 				return r, err
 			})
@@ -1702,7 +1708,8 @@ func TestVerifC01Sockets(t *testing.T) {
 		"doh-decoy-params", "req-padding+keepalive", "root-name", "doq:fallback-servfail",
 		"json-do-only", "json-sde-only", "json-cd-only", "json-do+sde", "json-invalid-param", "json-type-default", "json-type-mnemonic",
 		"json-vs-wire-compared", "udp:normal-query-in-flight-with-expired-context-write", "production-metrics-listener",
-		"first-write-fails-unencodable", "kind-huge", "formerr-no-question"}
+		"first-write-fails-unencodable", "kind-huge", "formerr-no-question",
+		"doh-path-canonical", "doh-path-trailing-slash", "doh-path-client-id", "doh-path-noncanonical"}
 	n := vc01Start(t)
 	if n.btdAddr != "" {
 		required = append(required, "udp-btd:must-reply", "tcp-btd:must-reply", "udp-btd:normal-query-in-flight-with-expired-context-write")
